@@ -3,7 +3,7 @@
 //! The harness only executes and records; spec/Trace_Settings.tla judges.
 //!
 //!   gen     --seed S --count N [--max-threads 8] [--max-ops 4] --out FILE     seeded random programs
-//!   trials  --progs FILE --out FILE [--reps R]      one FRESH CHILD PROCESS per program (settings are once per process)
+//!   trials  --progs FILE --out FILE [--reps R] [--jobs J]     one FRESH CHILD PROCESS per program (settings are once per process)
 //!   trial   --prog JSON                             (child) run one program, print call/ret events
 //!   touch   --out FILE                              which cells does each kind of call initialise? (fresh child each)
 //!   touch1  --prog JSON                             (child)
@@ -386,14 +386,28 @@ fn run_child(args: &[String], timeout: Duration) -> (Option<i32>, String) {
     (code, out)
 }
 
-fn cmd_trials(progs: &str, out: &str, reps: usize) -> i32 {
+fn cmd_trials(progs: &str, out: &str, reps: usize, jobs: usize) -> i32 {
     let mut w = open_out(out);
-    let mut id = 0usize;
+    let mut work: Vec<(String, u64)> = Vec::new();
     for line in read_lines(progs) {
         let prog: J = serde_json::from_str(&line).expect("program json");
         for _ in 0..reps {
-            let (code, text) = run_child(&["trial".into(), "--prog".into(), line.clone()], Duration::from_secs(30));
-            writeln!(w, "{}", json!({"ev":"reset","id":id,"scn":prog["id"].as_u64().unwrap_or(0)})).unwrap();
+            work.push((line.clone(), prog["id"].as_u64().unwrap_or(0)));
+        }
+    }
+    let mut id = 0usize;
+    for batch in work.chunks(jobs.max(1)) {
+        // `jobs` fresh children at a time; results are written in program order
+        let handles: Vec<_> = batch
+            .iter()
+            .map(|(line, _)| {
+                let line = line.clone();
+                std::thread::spawn(move || run_child(&["trial".into(), "--prog".into(), line], Duration::from_secs(30)))
+            })
+            .collect();
+        for (h, (_, scn)) in handles.into_iter().zip(batch.iter()) {
+            let (code, text) = h.join().expect("child runner");
+            writeln!(w, "{}", json!({"ev":"reset","id":id,"scn":scn})).unwrap();
             if code == Some(0) {
                 w.write_all(text.as_bytes()).unwrap();
             } else {
@@ -816,7 +830,9 @@ fn cmd_limit1(limit: u64, mode: &str, big: bool) -> i32 {
 fn cmd_limits(out: &str, big: bool) -> i32 {
     let mut w = open_out(out);
     let mut id = 0usize;
-    let limits: [(&str, u64); 6] = [
+    // "coll": a limit that is a multiple of both collection item sizes, so that count * size == limit exactly is probed
+    let limits: [(&str, u64); 7] = [
+        ("coll", 0),
         ("0", 0),
         ("1", 1),
         ("4096", 4096),
@@ -856,14 +872,20 @@ fn main() {
     let args = parse_args();
     let rc = match args.cmd.as_str() {
         "gen" => cmd_gen(args.u64("seed", 1), args.usize("count", 100), args.usize("max-threads", 8), args.usize("max-ops", 4), args.req("out")),
-        "trials" => cmd_trials(args.req("progs"), args.req("out"), args.usize("reps", 1)),
+        "trials" => cmd_trials(args.req("progs"), args.req("out"), args.usize("reps", 1), args.usize("jobs", 1)),
         "trial" => cmd_trial(&serde_json::from_str(args.req("prog")).expect("prog json")),
         "touch" => cmd_touch(args.req("out")),
         "touch1" => cmd_touch1(&serde_json::from_str(args.req("prog")).expect("prog json")),
         "limits" => cmd_limits(args.req("out"), args.get("big").is_some()),
         "limit1" => {
             let l = args.req("limit");
-            let limit = if l == "max" { u64::MAX } else { l.parse().expect("limit") };
+            let limit = if l == "max" {
+                u64::MAX
+            } else if l == "coll" {
+                (std::mem::size_of::<Value>() * std::mem::size_of::<(String, Value)>()) as u64
+            } else {
+                l.parse().expect("limit")
+            };
             cmd_limit1(limit, args.get("mode").unwrap_or("setfirst"), args.get("big").is_some())
         }
         other => {
